@@ -403,6 +403,10 @@ func Anchor() error {
 		}
 		if err := AnchorInterop(); err != nil {
 			anchorErr = fmt.Errorf("self-interop: %w", err)
+			return
+		}
+		if err := AnchorSearch(); err != nil {
+			anchorErr = fmt.Errorf("key search: %w", err)
 		}
 	})
 	return anchorErr
